@@ -258,7 +258,8 @@ def kernel_checks(ctx, which=("K", "M"), label="C02", thorough=None):
         jobs += [(c, 1, which) for c in cases]
     ctx.pmap(_job, jobs, chunksize=1)
     if "M" in which:
-        large = sorted(res.prints.get("LARGE", []), key=lambda c_: (c_["cfg"]["phys"], c_["cfg"]["elem"]))
+        # the emitting guard holds in one state per value of the dimensions it does not name (density ...): one copy of each is kept
+        large = sorted({(c_["cfg"]["phys"], c_["cfg"]["elem"], c_["cfg"]["cells"]): c_ for c_ in res.prints.get("LARGE", [])}.values(), key=lambda c_: (c_["cfg"]["phys"], c_["cfg"]["elem"]))
         if len(large) != 4:
             from harness.core import MachineryError
 
